@@ -176,7 +176,8 @@ def flow_script(hist, cfg, mode, t04, move_kind, order_seed=0, scale_e2=0, coars
     import random as _r
     rng = _r.Random(order_seed)
     nx, nsun, nrhos, nsc = cfg
-    cmds = ["QUIET 1", "NEW 1 %d %d %d %d %d" % (nx, nsun, nrhos, nsc, t04)] + mode_cmds(1, mode, ticks=max([1] + [h[1] * (3 if h[2] else 1) for h in hist]))
+    # every second history builds its object through the sizing constructor SQuIDS(nx,dim,nrho,nscalar,ti) instead of ini()
+    cmds = ["QUIET 1", "%s 1 %d %d %d %d %d" % ("NEWC" if order_seed % 2 else "NEW", nx, nsun, nrhos, nsc, t04)] + mode_cmds(1, mode, ticks=max([1] + [h[1] * (3 if h[2] else 1) for h in hist]))
     if coarse:
         # deliberately too few fixed steps for the tolerance: GSL's error control must refuse (Evolve throws) - if Evolve
         # returns normally instead, the clock and the state are judged like any other run
